@@ -48,6 +48,7 @@ type cweak struct {
 	id    int
 	root  rootRef
 	owner int
+	drain int // handle id whose Release (last strong ref) this weak ref races with, -1 = none
 	w     *capnp.WeakClient
 	valid bool
 }
@@ -81,9 +82,10 @@ const (
 	opOpen
 	opBarrier
 	opYield
+	opWaitInvalid
 )
 
-var copNames = []string{"addref", "release", "weakref", "weakadd", "call", "acall", "fulfill", "state", "issame", "resolve", "string", "arm", "open", "barrier", "yield"}
+var copNames = []string{"addref", "release", "weakref", "weakadd", "call", "acall", "fulfill", "state", "issame", "resolve", "string", "arm", "open", "barrier", "yield", "waitinvalid"}
 
 type cop struct {
 	Kind copKind `json:"-"`
@@ -107,11 +109,12 @@ type callRec struct {
 }
 
 type weakRec struct {
-	w      int
-	tCall  int64
-	tRet   int64
-	ok     bool
-	gotNil bool
+	afterInvalid bool // the only strong handle was seen invalid (its Release had dropped the reference) before the upgrade was issued
+	w            int
+	tCall        int64
+	tRet         int64
+	ok           bool
+	gotNil       bool
 }
 
 type c10conc struct {
@@ -127,6 +130,9 @@ type c10conc struct {
 	barrCnt  map[int]int
 
 	partnerReqs []partnerReq
+	drainHook   int // index of the hook of the draining-call scenario, -1 = none
+	drainHandle int
+	drainWeak   int
 
 	anyFinished int32
 	uid         uint64
@@ -290,7 +296,7 @@ func (s *c10conc) plan(rng *common.RNG) {
 			}
 		case r < 41:
 			if src, ok := srcFor(w); ok && len(s.weaks) < 3 {
-				wk := &cweak{id: len(s.weaks), root: s.handles[src].root, owner: w}
+				wk := &cweak{id: len(s.weaks), root: s.handles[src].root, owner: w, drain: -1}
 				s.weaks = append(s.weaks, wk)
 				st.weaks = append(st.weaks, wk.id)
 				emit(w, cop{Kind: opWeakRef, H: src, W: wk.id})
@@ -406,6 +412,45 @@ func (s *c10conc) plan(rng *common.RNG) {
 		ns = append(ns, s.scripts[w][at:]...)
 		s.scripts[w] = ns
 	}
+	// Draining-call scenario (half of the cases): a dedicated hook D with one
+	// strong handle hd and a weak reference created in the prologue.  Worker
+	// A arms D, starts an asynchronous call through hd (it blocks in D),
+	// then releases hd - the last strong reference - which blocks on the
+	// call.  Worker B waits until hd is invalid (= the Release has dropped
+	// the reference) and upgrades the weak reference: it must be refused.
+	s.drainHook, s.drainHandle, s.drainWeak = -1, -1, -1
+	if nworkers >= 2 && rng.Chance(1, 2) {
+		a := rng.Intn(nworkers)
+		b := (a + 1 + rng.Intn(nworkers-1)) % nworkers
+		s.drainHook = len(s.hooks)
+		s.hooks = append(s.hooks, cc.newHook(s.drainHook))
+		hd := &chandle{id: len(s.handles), root: rootRef{Idx: s.drainHook}, owner: a, releaser: -1}
+		s.handles = append(s.handles, hd)
+		s.drainHandle = hd.id
+		wk := &cweak{id: len(s.weaks), root: hd.root, owner: b, drain: hd.id}
+		s.weaks = append(s.weaks, wk)
+		s.drainWeak = wk.id
+		up := newPrivate(b, hd.root)
+		ws[b].live = append(ws[b].live, up)
+		bar := len(s.barriers)
+		s.barriers = append(s.barriers, nil)
+		fa := []cop{{Kind: opArm, K: "arm", P: s.drainHook}, {Kind: opACall, K: "acall", H: hd.id, Recv: rng.Chance(1, 3)},
+			{Kind: opBarrier, K: "barrier", P: bar}, {Kind: opRelease, K: "release", H: hd.id}}
+		fb := []cop{{Kind: opBarrier, K: "barrier", P: bar}, {Kind: opWaitInvalid, K: "waitinvalid", H: hd.id}, {Kind: opWeakAdd, K: "weakadd", W: wk.id, H2: up}}
+		ins := func(w int, f []cop) {
+			at := 0
+			if n := len(s.scripts[w]); n > 0 {
+				at = rng.Intn(n/2 + 1)
+			}
+			var ns []cop
+			ns = append(ns, s.scripts[w][:at]...)
+			ns = append(ns, f...)
+			ns = append(ns, s.scripts[w][at:]...)
+			s.scripts[w] = ns
+		}
+		ins(a, fa)
+		ins(b, fb)
+	}
 	// every worker releases a random subset of what it still holds
 	for w := 0; w < nworkers; w++ {
 		st := ws[w]
@@ -519,6 +564,7 @@ func (s *c10conc) setHandle(h *chandle, c *capnp.Client) {
 
 func (s *c10conc) worker(w int) {
 	cc := s.cc
+	sawInvalid := map[int]bool{}
 	for _, o := range s.scripts[w] {
 		switch o.Kind {
 		case opAddRef:
@@ -552,7 +598,7 @@ func (s *c10conc) worker(w int) {
 			cc.panicViolation("WeakClient.AddRef", pan)
 			if pan == nil {
 				s.mu.Lock()
-				s.wrecs = append(s.wrecs, weakRec{w: o.W, tCall: t0, tRet: t1, ok: okk, gotNil: c == nil})
+				s.wrecs = append(s.wrecs, weakRec{w: o.W, tCall: t0, tRet: t1, ok: okk, gotNil: c == nil, afterInvalid: wk.drain >= 0 && sawInvalid[wk.drain]})
 				s.mu.Unlock()
 				if !okk {
 					c = nil
@@ -610,6 +656,19 @@ func (s *c10conc) worker(w int) {
 			s.barrier(o.P)
 		case opYield:
 			runtime.Gosched()
+		case opWaitInvalid:
+			// bounded wait until the handle's Release has dropped its reference
+			if c, ok := s.handles[o.H].get(); ok {
+				for i := 0; i < 20000 && !sawInvalid[o.H]; i++ {
+					valid := true
+					cc.panicViolation("IsValid", common.Guard(func() { valid = c.IsValid() }))
+					if !valid {
+						sawInvalid[o.H] = true
+					} else {
+						runtime.Gosched()
+					}
+				}
+			}
 		}
 		atomic.AddInt64(&cc.progress, 1)
 	}
@@ -811,6 +870,14 @@ func (s *c10conc) check() {
 	}
 	// (c) weak upgrades refused while a same-root strong handle was live
 	for _, wr := range s.wrecs {
+		if wr.afterInvalid {
+			cc.rec.Count("c10conc_weak_upgrade_after_last_release", 1)
+			if wr.ok && !wr.gotNil {
+				cc.violate("C10/weak-upgrade-of-dead-hook/call-draining",
+					"WeakClient.AddRef succeeded although the only strong reference had already been released (its Release was observed to have dropped the reference and was waiting for a call in progress)",
+					fmt.Sprintf("weak=%d handle=%d upgrade=[%d,%d]", wr.w, s.weaks[wr.w].drain, wr.tCall, wr.tRet))
+			}
+		}
 		if wr.ok {
 			continue
 		}
@@ -865,6 +932,13 @@ func runC10Conc(rec *common.Recorder, idx uint64, seed uint64) bool {
 				}
 			}
 		}
+	}
+
+	if s.drainHandle >= 0 {
+		c := capnp.NewClient(s.hooks[s.drainHook])
+		s.setHandle(s.handles[s.drainHandle], c)
+		wk := s.weaks[s.drainWeak]
+		wk.w, wk.valid = c.WeakRef(), true
 	}
 
 	var wg sync.WaitGroup
